@@ -490,7 +490,9 @@ class C11(Check):
         if not f["orig"].isascii():
             out.nontrivial = True
             out.label("non-ascii+changed")
-        sig2 = dict(sig, undecodable=bool(f.get("undecodable")))
+        # planted: the generator put bytes into the file that are invalid in its on-disk encoding; without them the
+        # file is valid as written and any "undecodable" byte is the consequence of the encoding sqlfluff chose
+        sig2 = dict(sig, undecodable=bool(f.get("undecodable")), planted=bool(f.get("has_bad")))
         if bom_class(now) == "utf-16" and now[:2] != f["orig"][:2]:
             out.label("utf16-byte-order-changed(not-judged)")
         if bom_class(now) != bom_class(f["orig"]):
